@@ -31,13 +31,13 @@ func vApplyBatch(db *DB, kp *vPool, m *vModel, maxOps int, id string) {
 	// bcycles: the batch first stages N Put+Delete cycles (pool keys in turn, 1-byte values) - records the batch
 	// stages, cancels and still has to write as tombstones - before its symbolic operations
 	for c := 0; c < verifParam("bcycles"); c++ {
-		ki := c % len(kp.keys)
+		ki := c % kp.hot()
 		verifAssert(b.Put(kp.keys[ki], verifBytes("bcv", 1)) == nil, id+".batch-put-err")
 		verifAssert(b.Delete(kp.keys[ki]) == nil, id+".batch-delete-err")
 		staged.del(kp.canon[ki])
 	}
 	for i := 0; i < n; i++ {
-		ki := verifChoice("bki", len(kp.keys))
+		ki := verifChoice("bki", kp.hot())
 		if verifChoice("bop", 2) == 0 {
 			v := verifValue("bv")
 			verifAssert(b.Put(kp.keys[ki], v) == nil, id+".batch-put-err")
@@ -79,12 +79,12 @@ func vStep(db *DB, opts Options, kp *vPool, m *vModel, ops []int, id string) *DB
 	}
 	switch op {
 	case vOpPut:
-		ki := verifChoice("ki", len(kp.keys))
+		ki := verifChoice("ki", kp.hot())
 		v := verifValue("v")
 		verifAssert(db.Put(kp.keys[ki], v) == nil, id+".put-err")
 		m.put(kp.canon[ki], v)
 	case vOpDelete:
-		ki := verifChoice("ki", len(kp.keys))
+		ki := verifChoice("ki", kp.hot())
 		verifAssert(db.Delete(kp.keys[ki]) == nil, id+".delete-err")
 		m.del(kp.canon[ki])
 	case vOpSync:
